@@ -101,6 +101,27 @@ fn api(job: &Job, parts: &[&str], sh: &Arc<Shared>) -> Option<Ticket> {
     })
 }
 
+/// `m:<api>` — a send from ANOTHER thread that lands while the job task is between dequeuing a control and its next `recv`: the
+/// closure parked here is run from inside the job task, by the tracing subscriber below, when the task logs "got control message"
+static PENDING: Mutex<Option<Box<dyn FnOnce() + Send>>> = Mutex::new(None);
+struct Inj;
+impl tracing::Subscriber for Inj {
+    fn enabled(&self, m: &tracing::Metadata<'_>) -> bool { m.target().starts_with("watchexec_supervisor::job::task") }
+    fn new_span(&self, _: &tracing::span::Attributes<'_>) -> tracing::span::Id { tracing::span::Id::from_u64(1) }
+    fn record(&self, _: &tracing::span::Id, _: &tracing::span::Record<'_>) {}
+    fn record_follows_from(&self, _: &tracing::span::Id, _: &tracing::span::Id) {}
+    fn enter(&self, _: &tracing::span::Id) {}
+    fn exit(&self, _: &tracing::span::Id) {}
+    fn event(&self, ev: &tracing::Event<'_>) {
+        struct V(bool);
+        impl tracing::field::Visit for V {
+            fn record_debug(&mut self, f: &tracing::field::Field, v: &dyn std::fmt::Debug) { if f.name() == "message" && format!("{v:?}").contains("got control message") { self.0 = true; } }
+        }
+        let mut v = V(false); ev.record(&mut v);
+        if v.0 { let f = PENDING.lock().unwrap().take(); if let Some(f) = f { f(); } }
+    }
+}
+
 async fn run_case(behs: Vec<Beh>, ops: Vec<String>) -> String {
     let sh = Arc::new(Shared { t0: Instant::now(), log: Default::default(), n: Mutex::new(0), behs });
     let cmd = Arc::new(Command { program: Program::Exec { prog: "true".into(), args: vec![] }, options: Default::default() });
@@ -117,6 +138,26 @@ async fn run_case(behs: Vec<Beh>, ops: Vec<String>) -> String {
             "a" => { settle().await; tokio::time::sleep(Duration::from_millis(parts[1].parse().unwrap())).await; settle().await; }
             "y" => settle().await,
             "drop" => { job.take(); }
+            "m" | "M" => {
+                let Some(j) = job.as_ref() else { continue };
+                let (j2, sh2, ps) = (j.clone(), sh.clone(), parts[1..].iter().map(|s| s.to_string()).collect::<Vec<_>>());
+                let slot: Arc<Mutex<Option<Option<Ticket>>>> = Default::default(); let s2 = slot.clone();
+                *PENDING.lock().unwrap() = Some(Box::new(move || { let p: Vec<&str> = ps.iter().map(|s| s.as_str()).collect(); *s2.lock().unwrap() = Some(api(&j2, &p, &sh2)); }));
+                settle().await;
+                *PENDING.lock().unwrap() = None;      // the task went idle without handling a control: nothing is sent
+                let fired = slot.lock().unwrap().take();
+                if let Some(t) = fired {
+                    let w = nticket; nticket += 1;
+                    if let (Some(t), "M") = (t, parts[0]) {
+                        let rec = Arc::new(WakeRec { w, sh: sh.clone(), done: Default::default() });
+                        let waker = std::task::Waker::from(rec.clone());
+                        let mut fut = Box::pin(t);
+                        if fut.as_mut().poll(&mut std::task::Context::from_waker(&waker)).is_ready() { rec.resolve(); }
+                        waiters.push((rec, fut));
+                        settle().await;
+                    }
+                }
+            }
             "s" | "n" => {
                 let w = nticket; nticket += 1;
                 let Some(j) = job.as_ref() else { continue };
@@ -152,6 +193,7 @@ async fn run_case(behs: Vec<Beh>, ops: Vec<String>) -> String {
 }
 
 fn main() {
+    let _ = tracing::subscriber::set_global_default(Inj);
     std::panic::set_hook(Box::new(|_| {}));
     let stdin = std::io::stdin(); let stdout = std::io::stdout(); let mut o = stdout.lock();
     for line in stdin.lock().lines() {
